@@ -208,7 +208,7 @@ func (r *Run) Violation(key, caseName, what string, witness any) {
 		}
 	}
 	r.violations++
-	if r.printed >= 5 {
+	if r.printed >= maxPrint() {
 		return
 	}
 	r.printed++
@@ -333,4 +333,11 @@ func (r *Run) finish() int {
 		return ExitInconclusive
 	}
 	return ExitHeld
+}
+
+func maxPrint() int {
+	if v, err := strconv.Atoi(os.Getenv("VERIF_MAX_PRINT")); err == nil && v > 0 {
+		return v
+	}
+	return 5
 }
